@@ -417,7 +417,9 @@ def flrec(bits):
 
 
 def to_trace(t, v, cpu, ams):
-    if cpu["sig"] != 0:
+    if "mem" in cpu:          # already in trace format (replay files)
+        c = cpu
+    elif cpu["sig"] != 0:
         c = {"sig": cpu["sig"], "r": [], "fl": flrec(0), "mem": [], "rip": -1}
     else:
         c = {"sig": 0, "r": [limbs(x, 64) for x in cpu["r"]], "fl": flrec(cpu["fl"]), "mem": list(bytes.fromhex(cpu["m"])),
@@ -548,7 +550,7 @@ def report(ctx, vectors, traces, verdicts, source):
                 key = "C06:%s:%s:%d:%s" % (mode, mnemonic_of(f), f["sz"], cl)
                 ctx.fail(key, "%s `%s` (bytes %s): amoco's %s differs from what the processor (and specs/X86.tla) produce%s"
                          % (mode, v["k"], v["hex"], cl, ("; " + HINTS[cl]) if cl in HINTS else ""),
-                         {"isa": mode, "source": source, "vector": {k_: v[k_] for k_ in ("k", "hex", "r", "fl", "m")},
+                         {"isa": mode, "source": source, "vector": {k_: v[k_] for k_ in ("k", "f", "hex", "len", "br", "r", "fl", "m")},
                           "cpu": tr["cpu"], "amoco": am, "verdict": a})
     if broken:
         raise tlc.MachineryError("specs/X86.tla disagrees with the processor on %d vectors (%s), e.g. %s"
